@@ -194,3 +194,30 @@ def compute_pi(X_current, y_current):
 
 def orthogonalize(X_current, y_current, last):
     """uninterpreted in the cadence obligations"""
+
+
+# ---- Voronoi FPS ---------------------------------------------------------------------
+def voronoi_active(X, norms, hausdorff, X_selected, selected_idx, n_selected, vlocation, dSL, last):
+    # a point x with Voronoi centre c can only get closer to the new point `last`
+    # if d(c, last) < 4 d(x, c)  (triangle inequality), i.e. 1/4 d(c,last) < hausdorff[x]
+    dSL[:n_selected] = (norms[selected_idx[:n_selected]] + norms[last] - 2 * (X_selected[:n_selected] @ X[last])) * 0.25
+    return dSL, np.where(dSL[vlocation] < hausdorff)[0]
+
+
+def voronoi_update(X, norms, hausdorff, hausdorff_at_select, vlocation, active, n_selected, last, full_fraction):
+    # record the selection distance, compute distances to `last` either for all
+    # points or only for the active ones (all others keep their current minimum),
+    # take the running minimum and move the updated points to the new cell
+    hausdorff_at_select[last] = hausdorff[last]
+    if len(active) / X.shape[0] > full_fraction:
+        new_dist = norms + norms[last] - 2 * (X[last] @ X.T)
+    else:
+        new_dist = hausdorff.copy()
+        new_dist[active] = norms[active] + norms[last] - 2 * (X[last] @ X[active].T)
+        new_dist[last] = 0
+    updated = np.where(new_dist < hausdorff)[0]
+    hausdorff = np.minimum(hausdorff, new_dist)
+    if len(updated) > 0:
+        vlocation[updated] = n_selected
+    vlocation[last] = n_selected
+    return hausdorff_at_select, hausdorff, vlocation
